@@ -156,6 +156,7 @@ class SessionBase:
         except Violation as v:
             v.step = 0
             self.violation = v
+            violation_seen(self)
             raise
         return self
 
